@@ -404,6 +404,9 @@ package node
 //@   ensures @fct_burns_iff err == nil && !((calls("GetAssetRates") + calls("GetAssetRatesV0") > old(calls("GetAssetRates") + calls("GetAssetRatesV0"))) && calls("InsertRates") == old(calls("InsertRates"))) ==> ((calls("ApplyFactoidBlock") == old(calls("ApplyFactoidBlock")) + 1) <==> height < config.V20HeightActivation)
 //@   ensures @fct_burns_only_before_v20 calls("ApplyFactoidBlock") <= old(calls("ApplyFactoidBlock")) + 1 && (calls("ApplyFactoidBlock") > old(calls("ApplyFactoidBlock")) ==> height < config.V20HeightActivation)
 //@   ensures @snapshot_only_on_cadence calls("SnapshotPayouts") <= old(calls("SnapshotPayouts")) + 1
+//@   // from 2.0.2 on a snapshot height always takes the snapshot and pays the holders (with the block's rates or the last recorded ones);
+//@   // a block that is reported as applied has not skipped it (C14, C10)
+//@   ensures @holders_snapshot_taken_when_due{C14,C10} err == nil && height >= config.TransactionConversionActivation && height >= config.V202EnhanceActivation && height % 144 == 0 && !((calls("GetAssetRates") + calls("GetAssetRatesV0") > old(calls("GetAssetRates") + calls("GetAssetRatesV0"))) && calls("InsertRates") == old(calls("InsertRates"))) ==> calls("SnapshotPayouts") == old(calls("SnapshotPayouts")) + 1
 //@   ensures @no_rates_above_synced{C12} err == nil ==> (forall h int :: h > height ==> !Lrated[h])
 //@   ensures @recorded_rates_immutable{C12} err == nil ==> forall h int :: h != height ==> (Lrated[h] <==> old(Lrated)[h]) && Lrate[h] == old(Lrate)[h]
 //@   ensures @rates_at_most_once calls("InsertRates") <= old(calls("InsertRates")) + 1
@@ -414,6 +417,7 @@ package node
 //@
 //@ // the holders' snapshot is taken before any balance change of the block (C14)
 //@ site-requires (*Pegnetd).SyncBlock | (*Pegnetd).SnapshotPayouts | 1
+//@   requires @snapshot_valued_at_the_block_rates_or_the_last_recorded_ones{C14} (Lrated[height] ==> ratesOf(rates, Lrate, height)) && (!Lrated[height] && height >= config.V202EnhanceActivation && lastRatedBefore(Lrated, height) > 0 ==> ratesOf(rates, Lrate, lastRatedBefore(Lrated, height)))
 //@   requires @snapshot_before_balance_changes calls("ApplyTransactionBatchesInHolding") == old(calls("ApplyTransactionBatchesInHolding")) && calls("ApplyTransactionBlock") == old(calls("ApplyTransactionBlock")) && calls("ApplyGradedOPRBlock") == old(calls("ApplyGradedOPRBlock")) && calls("ApplyGradedSPRBlock") == old(calls("ApplyGradedSPRBlock")) && calls("DevelopersPayouts") == old(calls("DevelopersPayouts")) && calls("ApplyFactoidBlock") == old(calls("ApplyFactoidBlock"))
 //@
 //@ // rates are recorded only for a block with winners, from the winning records, by the band rule of the height (C12)
